@@ -544,7 +544,7 @@ def rule_index_clamp(ctx: Ctx) -> RuleResult:
 
 def run(ctx: Ctx):
     p = ctx.p
-    from ..rules import optcall
+    from ..rules import optcall, sentinel
     from . import c16
 
     shared = []
@@ -567,6 +567,7 @@ def run(ctx: Ctx):
         rule_copy_fresh(ctx),
         rule_gridflow_latch(ctx),
         rule_index_clamp(ctx),
+        sentinel.run_sentinel(p, "C08.16", ("urwid.widget",), floor=10),
         optcall.run_optcall(p, "C08.13", ("urwid.widget",), floor=35),
     ]
 
@@ -576,6 +577,7 @@ _C = "urwid/widget/columns.py"
 _G = "urwid/widget/grid_flow.py"
 _F = "urwid/widget/frame.py"
 MUTANTS = [
+    Mut("frame-keys-by-truthiness", "urwid/widget/frame.py", "Frame._contents_keys", "        if self._header is not None:\n            keys.append(\"header\")", "        if self._header:\n            keys.append(\"header\")", "SENTINEL|widget.frame.Frame._contents_keys"),
     Mut("walker-focus-clamp-off-by-one", "urwid/widget/listbox.py", "SimpleListWalker._modified", "if self.focus >= len(self):", "if self.focus > len(self):", "BOUND|widget.listbox.SimpleListWalker._modified"),
     Mut("twin-walker-focus-clamp-respelled", "urwid/widget/listbox.py", "SimpleListWalker._modified", "if self.focus >= len(self):", "if self.focus > len(self) - 1:", twin=True),
     Mut("gridflow-focus-cell-does-not-latch", "urwid/widget/grid_flow.py", "GridFlow.generate_display_widget", "            if (i == self.focus_position) or (not column_focused and w.selectable()):\n                c.focus_position = len(c.contents) - 1\n                column_focused = True\n            if i == self.focus_position:\n", "            if not column_focused and w.selectable():\n                c.focus_position = len(c.contents) - 1\n                column_focused = True\n            if i == self.focus_position:\n                c.focus_position = len(c.contents) - 1\n", "GUARD|widget.grid_flow.GridFlow.generate_display_widget"),
